@@ -1,5 +1,6 @@
 import GA.M.Unpack
 import GA.M.Pack
+import GA.M.Export
 /-
   Line protocol for filesystem cases (DESIGN A.7).
     case    := op SP opts SP dest SP root SP umask SP "T" n node* SP "E" m entry*
@@ -332,3 +333,30 @@ def handlePack (ws : List String) : String :=
       | (none, _) => "err E 0"
     else "bad-op"
   | none => "bad-case"
+/-! ### export cases:  export <opts> <dir> <unused> <umask> T n nodes…  C m (path kind)… -/
+
+def pChange : P Change := do
+  let path ← pStr
+  let k ← tok
+  match k with
+  | "m" => pure { path, kind := .modify }
+  | "a" => pure { path, kind := .add }
+  | "d" => pure { path, kind := .delete }
+  | _ => failure
+
+def handleExport (ws : List String) : String :=
+  let p : P (PackCase × List Change) := do
+    let c ← pPackCase
+    let t ← tok
+    if t ≠ "C" then failure
+    let m ← pNat
+    let cs ← pMany pChange m
+    pure (c, cs)
+  match p.run ws with
+  | some ((c, cs), _) =>
+    let fs := ensureDirs (buildFS c.nodes) worldTop
+    let w : World := { fs := fs, root := [], umask := 0o022 }
+    let (es, _) := (exportP c.src cs c.opts.uidMaps c.opts.gidMaps implicitT).run w
+    "ok " ++ renderEntries es
+  | none => "bad-case"
+
